@@ -20,7 +20,7 @@ RULE = ("grammar-directed files per format (BED3/6/12, bedGraph, narrowPeak, chr
         "orders); exhaustive width vectors {1,2,3,9}^(rows x 3 cols) for BED3 and chrom.sizes. "
         "Non-trivial = >= 2 rows with unequal widths in some column, or a sign / '.' / CRLF / comment line present")
 EXHAUSTIVE = {"quick": False, "thorough": False}
-MODEL_OPS = {"parse", "parse_x"}   # "parse_x" (corpus): VCF flavours with typed INFO / genotype columns, same handling
+MODEL_OPS = {"parse", "parse_x", "attrs"}   # "parse_x" (corpus): VCF flavours with typed INFO / genotype columns, same handling
 PARALLEL = 16
 ASSUMPTIONS = [
     "NumPy flatnonzero/reshape/fancy indexing and npstructures RaggedView slicing have their list-level meaning (modelled as positions/slices)",
@@ -539,6 +539,34 @@ def g_vcf_optional_focus(rng):
     return head + lines
 
 
+ATTR_KEYS = {"genes": ["gene_id"], "transcripts": ["transcript_id", "gene_id"], "exons": ["transcript_id", "gene_id", "exon_id"]}
+FEATURE = {"genes": "gene", "transcripts": "transcript", "exons": "exon"}
+
+
+def attr_cases(tier, rng):
+    """GTF / GFF3 files whose attribute column is read by key: get_genes / get_transcripts / get_exons"""
+    per = {"quick": 40, "thorough": 600, "widen": 150}[tier]
+    for fmt in ("gtf", "gff"):
+        for _ in range(per):
+            lines = []
+            for _ in range(rng.choice([1, 2, 3, 5, 8])):
+                ft = rng.choice(["gene", "transcript", "exon", "exon", "CDS"])
+                need = {"gene": ["gene_id"], "transcript": ["transcript_id", "gene_id"], "exon": ["transcript_id", "gene_id", "exon_id"],
+                        "CDS": ["gene_id"]}[ft]
+                others = rng.sample(["gene_name", "tag", "level", "ref_gene_id", "havana_gene", "Name", "Note"], rng.choice([0, 1, 2, 3]))
+                keys = need + others
+                rng.shuffle(keys)
+                vals = {k: g_ident(rng, rng.choice([1, 2, 5, 9])) for k in keys}
+                if fmt == "gtf":
+                    attr = " ".join(f'{k} "{vals[k]}";' for k in keys)
+                else:
+                    attr = ";".join(f"{k}={vals[k]}" for k in keys)
+                lines.append("\t".join([g_ident(rng), "src", ft, g_uint(rng, 3), g_uint(rng, 4), ".", rng.choice("+-."), ".", attr]))
+            head = g_comments(rng, "#", rng.choice([0, 1]))
+            for which in rng.sample(["genes", "transcripts", "exons"], 2):
+                yield {"op": "attrs", "fmt": fmt, "text": "".join(l + "\n" for l in head + lines), "which": which}
+
+
 def _retype(rng, d):
     """the same INFO ID with another declaration"""
     k, num, t = d
@@ -573,6 +601,42 @@ def pair_cases(tier, rng):
         b = _case("csvs", g_colheader(rng, "csvs", big), False)
         yield {"op": "parse2", "fmt": "csv", "first": a, "second": b}
         yield {"op": "parse2", "fmt": "csv", "first": b, "second": a}
+
+
+def buffer_op_cases(tier, rng):
+    """the parsed buffer row-indexed before get_data (`buffer[idx].get_data()`), and two buffers concatenated
+    (`buffer.concatenate([b1, b2]).get_data()`): the table must be the selected / the joined records"""
+    per = {"quick": 15, "thorough": 200, "widen": 50}[tier]
+    big = tier != "quick"
+    for fmt in ("bed3", "bed6", "bed12", "bdg", "narrowpeak", "sizes", "gtf", "pairs", "sam", "fastq", "fasta2"):
+        for _ in range(per):
+            def body():
+                if fmt == "sam":
+                    return [l for l in g_sam(rng, big) if not l.startswith("@")]
+                if fmt == "fastq":
+                    return g_fastq(rng, big)
+                if fmt == "fasta2":
+                    return g_fasta(rng, big, True)
+                return [l for l in g_delimited(rng, fmt, big) if not l.startswith("#")]
+            a = body()
+            k = FORMATS[fmt].get("k", {"fastq": 4, "fasta2": 2}.get(fmt, 1))
+            n = len(a) // k
+            if rng.random() < 0.5 or fmt in ("fastq", "fasta2"):     # (k-line buffers have no concatenate)
+                r = rng.random()
+                if r < 0.4:
+                    lo = rng.randrange(0, n + 1)
+                    sel = {"slice": [lo, rng.randrange(lo, n + 1), rng.choice([1, 1, 2])]}
+                elif r < 0.7:
+                    sel = {"mask": [rng.random() < 0.6 for _ in range(n)]}
+                else:
+                    sel = {"idx": [rng.randrange(n) for _ in range(rng.choice([1, 2, 3]))]}
+                c = _case(fmt, a, rng.random() < 0.2, via="raw")
+                c["sel"] = sel
+                yield c
+            else:
+                c = _case(fmt, a, False, via="raw")
+                c["concat"] = "".join(l + "\n" for l in body())
+                yield c
 
 
 def _case(fmt, lines, crlf, via="open", flavour=None, end="nl"):
@@ -614,6 +678,8 @@ def cases(tier, rng):
     # 2. grammar-directed random files
     per = 60 * mult
     yield from pair_cases(tier, rng)
+    yield from attr_cases(tier, rng)
+    yield from buffer_op_cases(tier, rng)
     for _ in range(60 * mult):
         yield _case("vcf", g_vcf_optional_focus(rng), rng.random() < 0.15, flavour="VCFBuffer")
     for fmt, F in FORMATS.items():
@@ -700,9 +766,32 @@ def _err(e):
     return {"err": "other:" + type(e).__name__}
 
 
+def _impl_attrs(c):
+    import logging
+    import numpy as np
+    import bionumpy as bnp
+    logging.disable(logging.CRITICAL)
+    F = FORMATS[c["fmt"]]
+    p = os.path.join(_tmpdir(), "a" + F["suffix"])
+    with open(p, "wb") as fh:
+        fh.write(c["text"].encode("latin1"))
+    try:
+        r = bnp.open(p)
+        try:
+            d = getattr(r.read(), "get_" + c["which"])()
+        finally:
+            r.close()
+        return {"n": int(len(d)), "start": [int(x) for x in np.asarray(d.start)],
+                "ids": {k: _canon_col(getattr(d, k)) for k in ATTR_KEYS[c["which"]]}}
+    except Exception as e:
+        return _err(e)
+
+
 def impl(c):
     if c["op"] == "parse2":
         return {"first": impl(c["first"]), "second": impl(c["second"])}
+    if c["op"] == "attrs":
+        return _impl_attrs(c)
     import dataclasses
     import logging
     import numpy as np
@@ -713,7 +802,15 @@ def impl(c):
     data = c["text"].encode("latin1")
     try:
         if c.get("via") == "raw":
-            d = BT.from_raw_buffer(np.frombuffer(data, dtype=np.uint8)).get_data()
+            buf = BT.from_raw_buffer(np.frombuffer(data, dtype=np.uint8))
+            if "sel" in c:                                   # rows of the buffer picked before parsing
+                sel = c["sel"]
+                buf = buf[slice(*sel["slice"])] if "slice" in sel else (
+                    buf[np.array(sel["mask"], dtype=bool)] if "mask" in sel else buf[np.array(sel["idx"], dtype=int)])
+            if "concat" in c:                                # a second buffer joined to the first one
+                buf2 = BT.from_raw_buffer(np.frombuffer(c["concat"].encode("latin1"), dtype=np.uint8))
+                buf = buf.concatenate([buf, buf2])
+            d = buf.get_data()
         else:
             p = os.path.join(_tmpdir(), "f" + F["suffix"])
             with open(p, "wb") as fh:
@@ -929,12 +1026,59 @@ def _ref_fastq(c):
     return {"n": len(names), "cols": [names, seqs, quals]}
 
 
+def _ref_attrs(c):
+    base = _ref_delimited(dict(c, op="parse", via="open"), FORMATS[c["fmt"]])
+    cols = base["cols"]
+    rows = [i for i, ft in enumerate(cols[2]) if ft == FEATURE[c["which"]]]
+    ids = {k: [] for k in ATTR_KEYS[c["which"]]}
+    for i in rows:
+        text = cols[8][i]
+        if c["fmt"] == "gtf":
+            items = [x.strip() for x in text.split(";") if x.strip()]
+            kv = []
+            for it in items:
+                m = re.match(r'^(\S+) "([^"]*)"$', it)
+                if not m:
+                    raise _Bad
+                kv.append(m.groups())
+        else:
+            kv = []
+            for it in text.split(";"):
+                k, eq, v = it.partition("=")
+                if not eq:
+                    raise _Bad
+                kv.append((k, v))
+        for k in ids:
+            vs = [v for kk, v in kv if kk == k]
+            if len(vs) != 1:
+                raise _Bad
+            ids[k].append(vs[0])
+    return {"n": len(rows), "start": [cols[3][i] for i in rows], "ids": ids}
+
+
+def _apply_sel(c, res):
+    """the reference table with the same rows picked / a second file's records appended"""
+    if "sel" in c:
+        n = res["n"]
+        sel = c["sel"]
+        idx = list(range(n))[slice(*sel["slice"])] if "slice" in sel else (
+            [i for i, m in enumerate(sel["mask"]) if m] if "mask" in sel else list(sel["idx"]))
+        pick = lambda col: [col[i] for i in idx]
+        return {"n": len(idx), "cols": [pick(col) for col in res["cols"]]}
+    return res
+
+
 def oracle(c):
     if c["op"] == "parse2":
         a, b = oracle(c["first"]), oracle(c["second"])
         if a is SKIP or b is SKIP:
             return SKIP
         return {"first": a, "second": b}
+    if c["op"] == "attrs":
+        try:
+            return _ref_attrs(c)
+        except (_Bad, ValueError):
+            return SKIP
     try:
         fmt = c["fmt"]
         if any(ord(ch) > 126 or (ord(ch) < 32 and ch not in "\t\n\r") for ch in c["text"]):
@@ -942,10 +1086,17 @@ def oracle(c):
         if fmt == "vcf":
             return _ref_vcf(c)
         if fmt in ("fasta", "fasta2"):
-            return _ref_fasta(c)
-        if fmt == "fastq":
-            return _ref_fastq(c)
-        return _ref_delimited(c, FORMATS[fmt])
+            res = _ref_fasta(c)
+        elif fmt == "fastq":
+            res = _ref_fastq(c)
+        else:
+            res = _ref_delimited(c, FORMATS[fmt])
+        if "concat" in c:
+            other = oracle({"op": "parse", "fmt": fmt, "text": c["concat"], "via": "raw"})
+            if other is SKIP:
+                return SKIP
+            res = {"n": res["n"] + other["n"], "cols": [a + b for a, b in zip(res["cols"], other["cols"])]}
+        return _apply_sel(c, res)
     except (_Bad, ValueError):
         return SKIP
 
@@ -1002,6 +1153,8 @@ def _conv(x):
 
 
 def agree(c, got, exp):
+    if c["op"] == "attrs":
+        return _same(got, exp)
     if c["op"] == "parse2":
         return isinstance(got, dict) and agree(c["first"], got.get("first"), exp["first"]) and \
             agree(c["second"], got.get("second"), exp["second"])
@@ -1041,9 +1194,24 @@ def _info_kind(num, typ):
     return "str"
 
 
+def _sel_indices(c, n):
+    sel = c["sel"]
+    if "slice" in sel:
+        return list(range(n))[slice(*sel["slice"])]
+    if "mask" in sel:
+        return [i for i, m in enumerate(sel["mask"]) if m]
+    return list(sel["idx"])
+
+
 def model_request(c):
-    if c["op"] == "parse2" or FORMATS.get(c["fmt"], {}).get("colheader"):
+    if c["op"] == "parse2" or FORMATS.get(c["fmt"], {}).get("colheader") or "concat" in c:
         return None                      # implementation vs reference parser only
+    if c["op"] == "attrs":
+        return dict(c, feature=FEATURE[c["which"]], keys=ATTR_KEYS[c["which"]])
+    if "sel" in c:
+        k = {"fastq": 4, "fasta2": 2}.get(c["fmt"], 1)
+        n = (c["text"].count("\n")) // k
+        return dict(c, sel_idx=_sel_indices(c, n))
     if c["fmt"] == "vcf":
         fl = c.get("flavour") or "VCFBuffer"
         head = [l.rstrip("\r") for l in c["text"].split("\n") if l.startswith("##INFO")]
@@ -1053,7 +1221,7 @@ def model_request(c):
 
 
 def nontrivial(c):
-    if c["op"] == "parse2":
+    if c["op"] in ("parse2", "attrs"):
         return True
     t = c["text"]
     if "\r" in t or "\n#" in t or t.startswith(("#", "@HD")) or "\t." in t or "\t-" in t or "\t+" in t:
@@ -1073,6 +1241,10 @@ def finding_key(c, got, exp):
         fl = (c["first"].get("flavour"), c["second"].get("flavour"))
         return f"history:{c['fmt']}:{'same-flavour' if fl[0] == fl[1] else 'other-flavour'}:{which}-file-misparsed"
     fmt = c["fmt"]
+    if c["op"] == "attrs":
+        return f"attributes:{fmt}:{c['which']}:{'raises' if isinstance(got, dict) and 'err' in got else 'wrong-value'}"
+    if "sel" in c or "concat" in c:
+        return f"buffer-{'row-selection' if 'sel' in c else 'concatenate'}:{fmt}:{'raises' if isinstance(got, dict) and 'err' in got else 'wrong-value'}"
     t = c["text"]
     F = FORMATS[fmt]
     kinds = [k for _, k in F.get("cols", [])]
